@@ -141,7 +141,8 @@ int64_t GenCtx::pick_frames (int B, int ch, int64_t cap)
 
 std::string GenCtx::pick_class (bool is_real)
 {	uint64_t r = rng.below (100) ;
-	if (r < 35) return "noise" ;
+	if (r < 30) return "noise" ;
+	if (r < 38) return "spikes" ;
 	if (r < 50) return "extremes" ;
 	if (r < 62) return "ramp" ;
 	if (r < 74) return "sine" ;
@@ -201,4 +202,73 @@ void memory_differential (Verdict &v, const char *prop, const J &plan, const Res
 	Finding fd ; fd.sig = make_sig_raw (prop, "memory", plan.at ("cfg").gets ("fmt"), plan.at ("cfg").gets ("route"), "none", disc) ;
 	fd.detail = "same calls on different initial memory (fresh heap blocks / unused stack hold another byte): " + where ;
 	v.findings.push_back (fd) ;
+}
+
+
+// ------------------------------------------------------------------------------------------
+// Fresh-process oracle (C19: "compared with running each script alone in a fresh process"). A zygote is forked before this process
+// ever calls the library; it serves requests by forking a grandchild, which executes the plan and sends the hashes back. Library
+// statics (lookup tables filled on first use, counters, static buffers) are in their initial state there, whatever this process did.
+#include <unistd.h>
+#include <sys/wait.h>
+#include <signal.h>
+
+static int g_zy_req = -1, g_zy_rsp = -1 ;
+
+void result_hashes (const Result &r, std::vector<uint64_t> &hashes)
+{	hashes.clear () ;
+	for (auto &t : r.transcript) hashes.push_back (transcript_hash (t)) ;
+	for (auto &kv : r.stores) hashes.push_back (fnv1a (kv.second.data (), kv.second.size ())) ;
+}
+
+static bool read_all (int fd, void *buf, size_t n) { char *p = (char *) buf ; while (n) { ssize_t k = read (fd, p, n) ; if (k <= 0) return false ; p += k ; n -= (size_t) k ; } return true ; }
+static bool write_all (int fd, const void *buf, size_t n) { const char *p = (const char *) buf ; while (n) { ssize_t k = write (fd, p, n) ; if (k <= 0) return false ; p += k ; n -= (size_t) k ; } return true ; }
+
+void init_zygote ()
+{	if (g_zy_req >= 0) return ;
+	int a [2], b [2] ;
+	if (pipe (a) != 0 || pipe (b) != 0) return ;
+	pid_t z = fork () ;
+	if (z < 0) return ;
+	if (z == 0)
+	{	close (a [1]) ; close (b [0]) ;
+		signal (SIGPIPE, SIG_DFL) ;
+		for (;;)
+		{	uint64_t len = 0 ;
+			if (!read_all (a [0], &len, sizeof (len)) || len == 0 || len > (1u << 26)) _exit (0) ;
+			std::string text (len, 0) ;
+			if (!read_all (a [0], &text [0], len)) _exit (0) ;
+			int c [2] ; if (pipe (c) != 0) _exit (0) ;
+			pid_t g = fork () ;
+			if (g == 0)
+			{	close (c [0]) ;
+				std::vector<uint64_t> h ;
+				try { J plan = J::parse (text) ; extern SimOS *g_os ; if (!g_os) g_os = new SimOS ; Result r = execute (plan) ; result_hashes (r, h) ; } catch (...) { h.clear () ; }
+				uint64_t n = h.size () ; write_all (c [1], &n, sizeof (n)) ; if (n) write_all (c [1], h.data (), n * sizeof (uint64_t)) ;
+				_exit (0) ;
+			}
+			close (c [1]) ;
+			uint64_t n = 0 ; std::vector<uint64_t> h ;
+			if (g > 0 && read_all (c [0], &n, sizeof (n)) && n < 4096) { h.resize (n) ; if (n && !read_all (c [0], h.data (), n * sizeof (uint64_t))) h.clear () ; } else n = 0 ;
+			close (c [0]) ;
+			if (g > 0) { int st ; waitpid (g, &st, 0) ; }
+			n = h.size () ; uint64_t ok = n ? n : (uint64_t) -1 ;
+			if (!write_all (b [1], &ok, sizeof (ok))) _exit (0) ;
+			if (n && !write_all (b [1], h.data (), n * sizeof (uint64_t))) _exit (0) ;
+		}
+	}
+	close (a [0]) ; close (b [1]) ;
+	g_zy_req = a [1] ; g_zy_rsp = b [0] ;
+}
+
+bool fresh_execute (const J &plan, std::vector<uint64_t> &hashes)
+{	hashes.clear () ;
+	if (g_zy_req < 0) return false ;
+	std::string text = plan.dump () ;
+	uint64_t len = text.size () ;
+	if (!write_all (g_zy_req, &len, sizeof (len)) || !write_all (g_zy_req, text.data (), len)) return false ;
+	uint64_t n = 0 ;
+	if (!read_all (g_zy_rsp, &n, sizeof (n)) || n == (uint64_t) -1 || n > 4096) return false ;
+	hashes.resize (n) ;
+	return n == 0 || read_all (g_zy_rsp, hashes.data (), n * sizeof (uint64_t)) ;
 }
